@@ -331,7 +331,17 @@ where
     M::Terminal: crate::AsciiDisplay,
 {
     writeln!(file, ".ver {}", settings.version)?;
-    let ascii = settings.ascii || !ExportSettings::binary_supported(manager);
+    let mut ascii = settings.ascii || !ExportSettings::binary_supported(manager);
+    if !ascii {
+        // Binary mode cannot represent terminal values, the importer assumes
+        // the single terminal to be "T".
+        for t in manager.terminals() {
+            if Ascii(manager.get_node(&t).unwrap_terminal()).to_string() != "T" {
+                ascii = true;
+            }
+            manager.drop_edge(t);
+        }
+    }
     writeln!(file, ".mode {}", if ascii { 'A' } else { 'B' })?;
 
     // TODO: other .varinfo modes?
